@@ -9,23 +9,23 @@ package socks5
 // every socket read / write is preceded by a deadline of now + the configured data timeout, and is not attempted
 // when the deadline could not be set
 //@ func (*socksConn).Read
-//@   props C09
+//@   props C09 C08
 //@   observe time.Now, (time.Time).Add, SetReadDeadline, Read
 //@   entry row nodl: [call time.Now() as (now) ; call Add(now, c.timeout) as (dl) ; call SetReadDeadline(c.conn, dl) as (e)] when e != nil && ret1 == e && ret0 == 0 -> exit
 //@   entry row read: [call time.Now() as (now) ; call Add(now, c.timeout) as (dl) ; call SetReadDeadline(c.conn, dl) as (e) ; call Read(c.conn, p) as (n, e2)] when e == nil && ret0 == n && ret1 == e2 -> exit
 //@ func (*socksConn).Write
-//@   props C09
+//@   props C09 C08
 //@   observe time.Now, (time.Time).Add, SetWriteDeadline, Write
 //@   entry row nodl:  [call time.Now() as (now) ; call Add(now, c.timeout) as (dl) ; call SetWriteDeadline(c.conn, dl) as (e)] when e != nil && ret1 == e && ret0 == 0 -> exit
 //@   entry row write: [call time.Now() as (now) ; call Add(now, c.timeout) as (dl) ; call SetWriteDeadline(c.conn, dl) as (e) ; call Write(c.conn, p) as (n, e2)] when e == nil && ret0 == n && ret1 == e2 -> exit
 
 // greeting: one Write of VER, NMETHODS, METHODS...
 //@ func NewMethodRequest
-//@   props C09
+//@   props C09 C08
 //@   modifies nothing
 //@   ensures ret != nil && ret.Ver == version && ret.NMethods == len(methods) % 256 && ret.Methods == methods
 //@ func (*MethodRequest).WriteTo
-//@   props C09
+//@   props C09 C08
 //@   observe Write
 //@   requires r.NMethods == len(r.Methods)
 //@   modifies nothing
@@ -37,14 +37,14 @@ package socks5
 //@   params rd, order, data
 //@   modifies asptr(data, MethodReply).Ver, asptr(data, MethodReply).Method
 //@ func (*MethodReply).ReadFrom
-//@   props C09
+//@   props C09 C08
 //@   observe binary.Read
 //@   modifies r.Ver, r.Method
 //@   entry row full: [call binary.Read(in, _, bind_x) as (e)] when isptr(x, MethodReply) && asptr(x, MethodReply) == r && ret0 == 2 && ret1 == e -> exit
 
 // watchdog: cancellation closes the connection (so a blocked read/write returns at once); otherwise it ends with the probe
 //@ func (*Scanner).Scan$1
-//@   props C09 C12
+//@   props C09 C12 C08
 //@   observe Close
 //@   entry row cancel: [ctxdone ; call Close(conn)] -> exit
 //@   entry row done:   [recv done as (_, _)] -> exit
@@ -86,15 +86,15 @@ package socks5
 // C09: constructor: default timeouts first, then the options in order; the dial option bounds the connect, the data
 // option the reads and writes
 //@ func WithDialTimeout$1
-//@   props C09
+//@   props C09 C08
 //@   modifies s.dialer.Timeout
 //@   ensures s.dialer.Timeout == timeout
 //@ func WithDataTimeout$1
-//@   props C09
+//@   props C09 C08
 //@   modifies s.dataTimeout
 //@   ensures s.dataTimeout == timeout
 //@ func NewScanner
-//@   props C09
+//@   props C09 C08
 //@   observe o
 //@   entry row init:  [] when s.dialer != nil && fresh(s.dialer) -> loop 0
 //@   loop 0 row apply: [call o(s)] -> continue
@@ -106,3 +106,7 @@ package socks5
 //@   props C14
 //@   observe json.Marshal
 //@   entry row marshal: [call json.Marshal(bind_x) as (b, e)] when ret0 == b && ret1 == e -> exit
+
+// plain-text form of a record: printing never panics, whatever the scanned host put into the record (C09 C08)
+//@ func (*ScanResult).String
+//@   props C09 C08
